@@ -252,6 +252,9 @@ class HTTP1Connection(httputil.HTTPConnection):
                     # TODO: client delegates will get headers_received twice
                     # in the case of a 100-continue.  Document or change?
                     await self._read_message(delegate)
+                    # The nested call has read the final response including
+                    # its body; the interim response itself has none.
+                    skip_body = True
             else:
                 if headers.get("Expect") == "100-continue" and not self._write_finished:
                     self.stream.write(b"HTTP/1.1 100 (Continue)\r\n\r\n")
